@@ -55,6 +55,11 @@ func (c *ConstantOfShape) Init(n *onnx.NodeProto) error {
 
 // Apply applies the constant of shape operator.
 func (c *ConstantOfShape) Apply(inputs []tensor.Tensor) ([]tensor.Tensor, error) {
+	// An empty shape tensor holds no data that could be read; it requests a scalar.
+	if inputs[0].Shape().TotalSize() == 0 {
+		return []tensor.Tensor{tensor.New(tensor.FromScalar(c.value.Data()))}, nil
+	}
+
 	shape, err := ops.AnyToIntSlice(ops.IfScalarToSlice(inputs[0].Data()))
 	if err != nil {
 		return nil, err
